@@ -1079,6 +1079,8 @@ class TT():
             index = [index]
         if not isinstance(index, list) and index != None:
             raise InvalidArguments('Invalid index.')
+        if index != None and any((not isinstance(i, int)) or i < 0 or i >= len(self.__N) for i in index):
+            raise InvalidArguments('Invalid index.')
 
         if index == None:
             # the case we need to sum over all modes
@@ -1110,7 +1112,7 @@ class TT():
                     cores.append(self.cores[i])
 
             S = TT(cores)
-            S.reduce_dims()
+            S.reduce_dims([i for i in range(len(self.__N)) if i not in index])
             if len(S.cores) == 1 and tn.numel(S.cores[0]) == 1:
                 S = tn.squeeze(S.cores[0])
         return S
